@@ -307,6 +307,44 @@ theorem reset_no_step_unless_committed (cfg : Cfg) (as rest : List Act)
   rw [runAll, exec_append]
   exact rsout_exec cfg rest _ ⟨h1, h2⟩
 
+/-! ## The mutex is exclusive; teardown ends a filter that reports "not running" -/
+
+/-- Mutual exclusion on `mtx_run_`: the controller is between the two stores of `reboot()` only while
+the filtering thread does not hold the mutex (so the wait predicate is never evaluated on the
+intermediate state `reset_ = true, run_` not yet cleared). -/
+theorem mutex_exclusive (cfg : Cfg) (as : List Act) :
+    ¬ ((runAll cfg as).mid = true ∧ (runAll cfg as).pc = PC.blocking) :=
+  fun h => excl_all cfg as h.1 h.2
+
+/-- the wait is passed (entry test or re-evaluation after a wake-up) only while no `reboot()` is in progress -/
+theorem wait_not_passed_during_reboot (s s' : St) (c : Bool) (hpc : s.pc = PC.preWait ∨ s.pc = PC.waiting)
+    (h : thr s c = some s') : s.mid = false := by
+  obtain ⟨pc, run, reset, td, stp, woken, mid, joined, hist⟩ := s
+  rcases hpc with hp | hp <;> simp only at hp <;> subst hp <;> cases mid <;> simp_all [thr]
+
+/-- Teardown requested at **any** point of a live thread — parked, inside `initialization_step()`
+(seed C09-r4-2's placement), inside a step, inside `run_condition()` … — and `run()` not called
+again: after 15 fair turns the thread has ended **and `is_running()` is false**. -/
+theorem teardown_ends_not_running (as rest : List Act) (htd : (runAll Cfg.current as).teardown = true)
+    (hlive : (runAll Cfg.current as).pc ≠ PC.done) (hnorun : ∀ a ∈ rest, a ≠ Act.c Cmd.run)
+    (hfair : 15 ≤ turns Cfg.current (runAll Cfg.current as) rest) :
+    (runAll Cfg.current (as ++ rest)).pc = PC.done ∧ (runAll Cfg.current (as ++ rest)).isRunning = false := by
+  have hd := (teardown_terminates as rest htd hfair).1
+  refine ⟨hd, ?_⟩
+  have h0 : EndOff (runAll Cfg.current as) := fun h => absurd h hlive
+  have := endoff_exec Cfg.current rest _ hnorun h0
+  rw [runAll, exec_append] at hd ⊢
+  exact this hd
+
+/-- non-vacuity (and the exception is real): teardown inside `initialization_step()` with `run_` set, 15
+turns → ended, not running; a `run()` issued after the end makes `is_running()` true again -/
+def teardownInInit : List Act := [.c .run, .t true, .t true, .t true, .t true, .c .teardown]
+
+example : (runAll Cfg.current teardownInInit).pc = PC.inInit ∧ (runAll Cfg.current teardownInInit).run = true ∧
+    (runAll Cfg.current (teardownInInit ++ List.replicate 15 (.t true))).pc = PC.done ∧
+    (runAll Cfg.current (teardownInInit ++ List.replicate 15 (.t true))).isRunning = false ∧
+    (runAll Cfg.current (teardownInInit ++ List.replicate 15 (.t true) ++ [.c .run])).isRunning = true := by decide
+
 /-! ## After the join -/
 
 /-- `wait()` returns only after the thread has ended; from then on, whatever is done, no
